@@ -188,25 +188,6 @@ func TestVerifC20Race(t *testing.T) {
 		for i := 0; i < nd; i++ {
 			prm.Disturb = append(prm.Disturb, c.Src.Int("disturbance", 0, 6))
 		}
-		// Excluded by construction (known finding of the Inputs unit): a switch request executed
-		// while the active list names an unregistered host dereferences a nil handle inside a
-		// RunParallel goroutine, which kills the child before it can show any race. A workload
-		// that unregisters a host keeps everything else but files no switch request.
-		hasUnreg := false
-		for _, d := range prm.Disturb {
-			hasUnreg = hasUnreg || d == 4
-		}
-		if hasUnreg {
-			kept := prm.Disturb[:0]
-			for _, d := range prm.Disturb {
-				if d != 3 {
-					kept = append(kept, d)
-				} else {
-					c.Class("excluded:switch-request-with-unregistered-host")
-				}
-			}
-			prm.Disturb = kept
-		}
 		c.NonTrivial()
 		c.Sample(prm)
 		b, _ := json.Marshal(prm)
@@ -242,7 +223,11 @@ func TestVerifC20Race(t *testing.T) {
 							site = "host-registry-refreshed-under-a-running-manager-iteration"
 						}
 					}
-					c.Violation("c20-panic@"+site+"(process-death)", "the workload's process died: %s", firstLines(string(out)[i:], 40))
+					suffix := "(process-death)"
+					if site == "host-registry-refreshed-under-a-running-manager-iteration" {
+						suffix = "" // one root cause, whether the nil handle is met in a loop body or in a spawned goroutine
+					}
+					c.Violation("c20-panic@"+site+suffix, "the workload's process died: %s", firstLines(string(out)[i:], 40))
 				}
 				c.Violation("harness-race-child-failed", "calibration: child failed: %v\n%s", err, firstLines(string(out), 60))
 			}
